@@ -83,13 +83,22 @@ def result_sites(f, tb):
 
 def check(ctx):
     P = ctx.prog
+    fns = check_totality(ctx, P)
+    if fns is None:
+        return
+    tele, data, token = fns
+    check_accept_and_verdicts(ctx, P, tele, data, token)
+
+
+def check_totality(ctx, P):
+    """clauses a.totality / a.length (also used by C05 for the decoder part of poll())"""
     fns = []
     for n in DECODERS:
         f = ctx.need_fn(CR, n)
         if f is not None:
             fns.append(f)
     if len(fns) != 3:
-        return
+        return None
     tele, data, token = fns
     # ---------------- a: totality ---------------------------------------------------------------
     total_ob = 0
@@ -147,7 +156,10 @@ def check(ctx):
                    "reported telegram length is not proven to satisfy 1 <= n <= len(input): " + "; ".join(bad[:2]), f.loc(b, i))
     # Telegram::deserialize delegates: its own Ok site is the SC arm; the delegations return the callee's value
     ctx.anchor("accepting return sites with a proven length", nok, 3)
+    return fns
 
+
+def check_accept_and_verdicts(ctx, P, tele, data, token):
     # ---------------- b: acceptance guards -----------------------------------------------------
     g = GuardAnalysis(data, P)
     tb = g.tb
